@@ -805,6 +805,12 @@ class FermionicArray(AbelianArray):
         """
         return AbelianArray.to_dense(self.phase_sync())
 
+    def item(self):
+        """Convert the block array to a scalar if it is a scalar block array,
+        with lazy phases multiplied in.
+        """
+        return AbelianArray.item(self.phase_sync())
+
     def allclose(self, other, **kwargs):
         """Check if two fermionic arrays are element-wise equal within a
         tolerance, accounting for phases.
